@@ -230,6 +230,31 @@ func init() {
 		w.ex.Thread("G", func() { mp.start.Open() })
 		w.ex.Thread("S1", func() { w.n.Send(id, "a") })
 	})
+	// meta process: its Start() panics while the Terminate callback (caused by a handler error) is still executing
+	c01Scenario("meta-start-panics-during-terminate", c01opt{qb: 1, tb: 2, preempt: true}, func(w *World) {
+		id, mp := w.spawnMeta("R", gen.MetaOptions{})
+		mp.onMsg = func(m *metaProbe, from gen.PID, msg any) error {
+			if msg == "fail" {
+				return errE
+			}
+			return nil
+		}
+		// (Start is released from inside Terminate: that it may end BEFORE a handler has finished is the known finding
+		// of meta-startreturns-send and not what this scenario is about)
+		g2 := &vsched.Gate{}
+		first := true
+		mp.onTerm = func(reason error) {
+			if first {
+				first = false
+				mp.start.Open()
+				g2.Wait()
+			}
+		}
+		mp.startPanics = true
+		w.ex.Thread("A", func() { w.n.Send(id, "fail") })
+		w.ex.Thread("S2", func() { w.n.Send(id, "b") })
+		w.ex.ThreadLow("G2", func() { g2.Open() })
+	})
 	// meta process: owner terminates (exit signal to the meta) while a message is delivered
 	c01Scenario("meta-ownerkill-send", pb, func(w *World) {
 		id, _ := w.spawnMeta("R", gen.MetaOptions{})
